@@ -17,6 +17,8 @@
 
 package netpoll
 
+import "unsafe"
+
 func (p *defaultPoll) Alloc() (operator *FDOperator) {
 	op := p.opcache.alloc()
 	op.poll = p
@@ -45,7 +47,9 @@ func (p *defaultPoll) onhups() {
 	}
 	hups := p.hups
 	p.hups = nil
+	vp(vpSpawnHup, unsafe.Pointer(p), int64(len(hups)), 0)
 	go func(onhups []func(p Poll) error) {
+		vp(vpHupStart, unsafe.Pointer(p), 0, 0)
 		for i := range onhups {
 			if onhups[i] != nil {
 				onhups[i](p)
